@@ -3,7 +3,7 @@ CONSTANTS
   MaxResp = 2
   MaxRecv = 2
   MaxOps = 5
-  Rich = FALSE
+  Mode = "base"
 INVARIANT SpentNotEnabled
 INVARIANT EachOnce
 INVARIANT OrdConsistent
@@ -16,3 +16,4 @@ PROPERTY NoRemovalDuringDelivery
 PROPERTY FaultTransparent
 PROPERTY SpecIsLegal
 PROPERTY NoPrefixMatch
+PROPERTY UntouchedFireOnce
